@@ -2,7 +2,21 @@
 #include "pv.h"
 #include <utf8proc.h>
 
-static char* norm_alloc(const char* s, utf8proc_option_t opt) {
+/* MemorySanitizer flavour: libutf8proc is not instrumented, so what it writes and returns carries no "initialised" shadow.
+   Everything that crosses from it into the harness/library is declared initialised here (and only here). */
+#if defined(__has_feature)
+#if __has_feature(memory_sanitizer)
+#include <sanitizer/msan_interface.h>
+#define PV_UNPOISON(p, n) __msan_unpoison((p), (n))
+#define PV_NOMSAN __attribute__((no_sanitize("memory")))
+#endif
+#endif
+#ifndef PV_UNPOISON
+#define PV_UNPOISON(p, n) ((void)0)
+#define PV_NOMSAN
+#endif
+
+PV_NOMSAN static char* norm_alloc(const char* s, utf8proc_option_t opt) {
     utf8proc_uint8_t* out = NULL;
     utf8proc_ssize_t r = utf8proc_map((const utf8proc_uint8_t*)s, 0, &out,
                                       (utf8proc_option_t)(UTF8PROC_NULLTERM | UTF8PROC_STABLE | opt));
@@ -10,6 +24,7 @@ static char* norm_alloc(const char* s, utf8proc_option_t opt) {
         if (out) free(out);
         return pv_exact_str(s);
     }
+    PV_UNPOISON(out, (size_t)r + 1);
     return (char*)out;
 }
 char* pv_nfkd_alloc(const char* s) { return norm_alloc(s, (utf8proc_option_t)(UTF8PROC_DECOMPOSE | UTF8PROC_COMPAT)); }
@@ -28,12 +43,13 @@ static size_t bounded(char* full, polyseed_str norm) {
 size_t pv_dep_nfkd(const char* str, polyseed_str norm) { return bounded(pv_nfkd_alloc(str), norm); }
 size_t pv_dep_nfc(const char* str, polyseed_str norm) { return bounded(pv_nfc_alloc(str), norm); }
 
-int pv_utf8_decode(const char* s, uint32_t* cp, int cap) {
+PV_NOMSAN int pv_utf8_decode(const char* s, uint32_t* cp, int cap) {
     const utf8proc_uint8_t* p = (const utf8proc_uint8_t*)s;
     int n = 0;
     while (*p) {
         utf8proc_int32_t c;
         utf8proc_ssize_t k = utf8proc_iterate(p, -1, &c);
+        PV_UNPOISON(&c, sizeof c);
         if (k <= 0 || c < 0) return -1;
         if (n >= cap) return -1;
         cp[n++] = (uint32_t)c;
@@ -41,10 +57,12 @@ int pv_utf8_decode(const char* s, uint32_t* cp, int cap) {
     }
     return n;
 }
-int pv_utf8_encode(uint32_t cp, char* out) {
-    return (int)utf8proc_encode_char((utf8proc_int32_t)cp, (utf8proc_uint8_t*)out);
+PV_NOMSAN int pv_utf8_encode(uint32_t cp, char* out) {
+    int n = (int)utf8proc_encode_char((utf8proc_int32_t)cp, (utf8proc_uint8_t*)out);
+    if (n > 0) PV_UNPOISON(out, (size_t)n);
+    return n;
 }
-bool pv_is_mark(uint32_t cp) {
+PV_NOMSAN bool pv_is_mark(uint32_t cp) {
     utf8proc_category_t c = utf8proc_category((utf8proc_int32_t)cp);
     return c == UTF8PROC_CATEGORY_MN || c == UTF8PROC_CATEGORY_MC || c == UTF8PROC_CATEGORY_ME;
 }
